@@ -274,7 +274,14 @@ func runAttempt(c *Check, tier string, st *shardState, n int, runDir string, bud
 	errF, _ := os.Create(errPath)
 	cmd := exec.Command(os.Args[0], "worker", c.ID, "--tier", tier, "--shard", strconv.Itoa(st.shard), "--nshards", strconv.Itoa(n),
 		"--resume", strconv.FormatUint(st.resume, 10), "--progress", prog)
-	cmd.Env = append(os.Environ(), "GOMAXPROCS="+envOr("VERIF_WORKER_GOMAXPROCS", "1"), "GOTRACEBACK=all")
+	procs := "1"
+	if c.WorkerProcs > 0 {
+		procs = strconv.Itoa(c.WorkerProcs)
+	}
+	cmd.Env = append(os.Environ(), "GOMAXPROCS="+envOr("VERIF_WORKER_GOMAXPROCS", procs), "GOTRACEBACK=all")
+	if c.WorkerEnv != nil {
+		cmd.Env = append(cmd.Env, c.WorkerEnv(runDir)...)
+	}
 	cmd.Stderr = errF
 	stdout, _ := cmd.StdoutPipe()
 	var res attemptResult
